@@ -73,6 +73,8 @@ def _enter(entry, spec, root, opts, on_init, captured):
                 "-t", str(opts["throttle"]), "-a", str(opts["attempts"])]
         if opts["hash_ws"]:
             args.append("--hashws")
+        if opts.get("use_tmp"):
+            args.append("--usetmp")
         if entry == "fg":
             args.append("-fg")
         sys.argv = args + [path]
@@ -247,19 +249,25 @@ def deliver_cancel(rng, root):
     return "maestro cancel %s" % " ".join("<study>" if d == root else "<missing>" for d in dirs)
 
 
-def run(ctx, rng, k, cancel_prob=0.0, max_polls=40, local_prob=0.0, entry="direct", timeouts=0.0):
+def run(ctx, rng, k, cancel_prob=0.0, max_polls=40, local_prob=0.0, entry="direct", timeouts=0.0, force=None,
+        spec=None):
     """returns dict(mon={prop: [...]}, polls=.., ret=.., spec=.., nontrivial=..)"""
     import maestrowf.conductor as cmod
     from maestrowf.conductor import Conductor
     from maestrowf.datastructures.core.executiongraph import ExecutionGraph
-    root = os.path.join(ctx.scratch, "cond", "c%d" % k)
-    spec = SS.gen_spec(rng, root, adversarial=False)
+    root = os.path.join(ctx.scratch, "cond", "c%s" % k)
+    if spec is None:
+        spec = SS.gen_spec(rng, root, adversarial=False)
+    else:
+        spec = dict(spec, env={"variables": {"OUTPUT_PATH": root}})
     for s in spec["study"]:
         for key in ("nodes", "procs", "walltime"):
             s["run"].pop(key, None)
     S.install()
     opts = dict(hash_ws=rng.random() < 0.3, rlimit=rng.choice([0, 1, 2]),
-                throttle=rng.choice([0, 0, 1, 2, 3]), attempts=rng.choice([1, 2]))
+                throttle=rng.choice([0, 0, 1, 2, 3]), attempts=rng.choice([1, 2]),
+                use_tmp=rng.random() < 0.3)
+    opts.update(force or {})
     all_local = rng.random() < local_prob      # nothing is ever in flight between polls
     world_seed = rng.getrandbits(32)
     env = {}
@@ -275,6 +283,9 @@ def run(ctx, rng, k, cancel_prob=0.0, max_polls=40, local_prob=0.0, entry="direc
                       sched={nm: (not all_local) and r2.random() < 0.85 for nm in env["names"]})
         S.WORLD.poll_code = "OK"
         S.WORLD.poll_reports = []
+        # with --usetmp the scripts of all instances share one directory: the files are really written,
+        # and every submission is checked against what the file holds at that moment
+        S.WORLD.write_files = bool(opts.get("use_tmp"))
         par = {nm: [] for nm in env["names"]}
         for src, dsts in dag_.adjacency_table.items():
             for d in dsts:
@@ -289,7 +300,7 @@ def run(ctx, rng, k, cancel_prob=0.0, max_polls=40, local_prob=0.0, entry="direc
             st["cancel_at"] = 0
             st["events_at_cancel"] = 0
             st["nontrivial"] = True
-    mon = {"C18": [], "C07": [], "C12": [], "C05": [], "C01": [], "C03": [], "C06": []}
+    mon = {"C18": [], "C07": [], "C12": [], "C05": [], "C01": [], "C03": [], "C06": [], "C02": [], "C19": []}
     st = {"polls": 0, "cancel_at": None, "nontrivial": False, "cancel_calls": 0, "seen_events": 0}
     # C01 at the level of the staged study: the parents of an instance are read
     # from the execution graph's adjacency table (what `maestro status` and the
@@ -343,6 +354,12 @@ def run(ctx, rng, k, cancel_prob=0.0, max_polls=40, local_prob=0.0, entry="direc
             elif opts["rlimit"] > 0 and cnt > opts["rlimit"]:
                 mon["C06"].append(("budget", "poll %d: %s was restarted %d times, the limit asked for is %d "
                                    "(entered through %s)" % (k_, nm_, cnt, opts["rlimit"], entry)))
+        for nm_, kind_, path_, tail_ in S.WORLD.foreign_scripts:
+            mon["C06" if kind_ == "restart" else "C19"].append(
+                ("own-script", "poll %d: %s was submitted with its %s script %s, which holds another command: %r "
+                 "(usetmp=%s hashws=%s)" % (k_, nm_, kind_, os.path.basename(path_), tail_, opts.get("use_tmp"),
+                                            opts["hash_ws"])))
+        del S.WORLD.foreign_scripts[:]
         table = Conductor.get_status(root)
         tn = table.get("Step Name", [])
         if sorted(tn) != sorted(names):
@@ -516,6 +533,27 @@ def run(ctx, rng, k, cancel_prob=0.0, max_polls=40, local_prob=0.0, entry="direc
                                % (ret, idle[:3], [env["parents"].get(nm, []) for nm in idle[:3]])))
     if ret == "NONTERMINATION":
         mon["C05"].append(("terminates", "monitor_study did not return within %d polls of a fair tail" % max_polls))
+    if ret in EXIT and st["cancel_at"] is None:
+        # C02 at the level of the staged study: below a step that ended unsuccessfully nothing runs to success -
+        # the children are read from the adjacency table (what the failure propagation walks)
+        kids = {}
+        for nm in names:
+            for p_ in env["parents"].get(nm, []):
+                kids.setdefault(p_, []).append(nm)
+        for nm in names:
+            if states[nm] not in ("FAILED", "CANCELLED", "UNKNOWN", "TIMEDOUT"):
+                continue
+            todo, below = list(kids.get(nm, [])), set()
+            while todo:
+                x = todo.pop()
+                if x not in below:
+                    below.add(x)
+                    todo.extend(kids.get(x, []))
+            wrong = sorted(x for x in below if states[x] not in ("FAILED", "CANCELLED"))
+            if wrong:
+                mon["C02"].append(("descendants-reported", "study-level: %s ended %s but its dependents %s ended %s"
+                                   % (nm, states[nm], wrong[:4], [states[x] for x in wrong[:4]])))
+                break
     return {"mon": mon, "polls": st["polls"], "ret": ret, "spec": spec, "nontrivial": st["nontrivial"],
             "cancelled": st["cancel_at"], "cancel_how": st.get("how"), "entry": entry, "exit": code,
             "options": opts, "loop": rec.lines() if ret != "NONTERMINATION" else None}
